@@ -55,8 +55,8 @@ impl Prop for C05 {
   }
   fn params(&self, tier: Tier) -> Params {
     match tier {
-      Tier::Quick => Params { cases: 40_000, tape_len: 2500, workers: 14, stack_mb: 8, worker_timeout_s: 1200 },
-      Tier::Thorough => Params { cases: 2_000_000, tape_len: 20000, workers: 16, stack_mb: 8, worker_timeout_s: 5 * 3600 },
+      Tier::Quick => Params { cases: 40_000, tape_len: 2500, workers: 14, stack_mb: 8, worker_timeout_s: 1200, shrink_iters: 4000 },
+      Tier::Thorough => Params { cases: 2_000_000, tape_len: 20000, workers: 16, stack_mb: 8, worker_timeout_s: 5 * 3600, shrink_iters: 4000 },
     }
   }
   fn setup(&self, _tier: Tier) {
